@@ -49,6 +49,11 @@ var seeds = []string{
 	"{a(b:\"\"\"\n    x\n      y\n    \"\"\")}",
 	`"d" type T{"e" f("g" a:Int):Int}`,
 	`interface I implements J{a:Int} extend schema @d{mutation:M}`,
+	"\"d\\\nscalar S", // quoted string ended by a line break, last character a backslash
+	// block strings with an interior white-space-only line shorter than the indent of its neighbours
+	"\"\"\"\n    t1\n  \n    t2\n\"\"\"\ntype T {\n  \"\"\"\n    f1\n \t\n    f2\n  \"\"\"\n  f(\"\"\"\n      a1\n   \n      a2\n    \"\"\" a: String = \"\"\"\n      d1\n  \n      d2\n    \"\"\"): Int @d(x: \"\"\"\n    v1\n\t\n    v2\n  \"\"\")\n}",
+	"\"\"\"\n    o1\n \n    o2\n\"\"\"\nquery Q($v: String = \"\"\"\n    d1\n  \n    d2\n  \"\"\") {\n  a(b: \"\"\"\n      v1\n   \n      v2\n    \"\"\", c: {k: [\"\"\"\n    w1\n\t\n    w2\n\"\"\"]})\n}",
+	"enum E {\n  \"\"\"\n  e1\n \n  e2\n  \"\"\"\n  A\n}\ninput I {\n  \"\"\"\n    i1\n\t\n    i2\n  \"\"\"\n  a: String = \"\"\"\n    x\n  \"\"\"\n}",
 }
 
 type caseInput struct {
@@ -99,7 +104,10 @@ func (c *checker) judge(in, origin string) {
 			c.run.Count("limit_overcount_rejections", int64(r.OverCount))
 		}
 		if r.IndentSkip {
-			c.run.Count("not_judged_indent_printer_because_compact_failed", 1)
+			c.run.Count("indent_printer_failure_not_reported_because_compact_fails_the_same_part", 1)
+		}
+		if r.BlockValuesNotJudged > 0 {
+			c.run.Count("not_judged_block_string_value_extent_unclear", int64(r.BlockValuesNotJudged))
 		}
 		if len(r.Fails) == 0 {
 			c.run.Sample("accepted:"+origin, map[string]any{"input": in, "depth": r.Depth, "fields": r.Fields})
@@ -235,7 +243,8 @@ func TestCheck(t *testing.T) {
 		"block string values are compared exactly by decoded value; block descriptions up to trailing white space of a line, an indentation common to all lines and blank lines at the ends",
 		"positions are (line, column) with '\\n' as the only line separator and byte columns, the convention of the lexer; a zero position means absent",
 		"real depth / field count = per definition nesting of selection sets / number of field selections of the accepted tree, no fragment expansion (weakest reading); over-counting is never an alarm; limit 0 = unlimited",
-		"the indenting printer is judged only on inputs whose compact round trip is clean",
+		"the textual fixed point print(parse(print(d))) == print(d) is compared byte for byte, for both printers, for every document whose first print re-parses, independently of the structural comparison; a failure of the indenting printer is reported only when the compact printer does not fail the same part (structure / fixed point)",
+		"the value the document hands out for a block string value (BlockStringValueContentBytes) is compared with BlockStringValue() of the spec computed by the check from the raw text; strings on whose extent the check's scanner and the lexer disagree by more than white space are not judged (counted)",
 		"a failing input is represented by one deletion-minimal failing subsequence (window deletion, bracket hoisting); other defects present in the same input are found through the inputs that lack the first one",
 		"termination: an input is a hang only after 10 s of CPU time without progress in the shard and in 5 fresh processes (an evaluation takes 5-200 us)",
 		"bytes only occur inside atoms; inputs are <= ~150 bytes",
